@@ -154,13 +154,17 @@ theorem getTimeout_idem {P : Timeout} {arg : TArg} {t : Timeout} (h : getTimeout
 theorem connectTimeout_start (t : Timeout) (s : Option Int) :
     connectTimeout { t with start := s } = connectTimeout t := rfl
 
-theorem connectTimeout_spec (gdt : TV) (t : Timeout) (h : t.total ≠ .unset) :
+/-- `connect_timeout` never raises (every combination of validated attributes has a value) -/
+theorem connectTimeout_ok (t : Timeout) : ∃ v, connectTimeout t = .ok v := by
+  obtain ⟨c, r, T, s⟩ := t
+  cases T <;> cases c <;> simp [connectTimeout]
+
+theorem connectTimeout_spec (gdt : TV) (t : Timeout) :
     ∃ v, connectTimeout t = .ok v ∧ resolveDefault gdt v = connectSpec gdt t := by
   obtain ⟨c, r, T, s⟩ := t
   cases T <;> cases c <;> simp_all [connectTimeout, connectSpec, optMin, TV.fin, resolveDefault]
 
-theorem readTimeout_spec (gdt : TV) (t : Timeout) (hw : t.WF) (s now : Int) (hs : t.start = some s)
-    (h : t.total ≠ .unset) :
+theorem readTimeout_spec (gdt : TV) (t : Timeout) (hw : t.WF) (s now : Int) (hs : t.start = some s) :
     readTimeout gdt t now = .ok (readSpec gdt t (now - s)) := by
   obtain ⟨c, r, T, st⟩ := t
   obtain ⟨_, hr, hT⟩ := hw
@@ -210,9 +214,9 @@ theorem elapsed_nonneg (conn : ConnSt) (cdur sdur : Int) (hc : 0 ≤ cdur) (hs :
 connected -/
 def firstEv (conn : ConnSt) (cv : TV) : Ev := if conn = .alive then .sockSet cv else .connect cv
 
-/-- `_make_request` in closed form for a governing Timeout whose total is not the sentinel -/
+/-- `_make_request` in closed form (any governing Timeout, the sentinel as `total` included) -/
 theorem makeRequest_form (gdt : TV) (P : Timeout) (arg : TArg) (conn : ConnSt) (now cdur sdur : Int)
-    (cl : Bool) (t : Timeout) (hg : getTimeout P arg = .ok t) (ht : t.total ≠ .unset) :
+    (cl : Bool) (t : Timeout) (hg : getTimeout P arg = .ok t) :
     makeRequest gdt P arg conn now cdur sdur cl =
       (if readSpec gdt t (elapsed conn cdur sdur) = .val 0 then
          ⟨[.setConn (connectSpec gdt t), firstEv conn (connectSpec gdt t)], .exc .readTimeoutError, .alive,
@@ -222,10 +226,10 @@ theorem makeRequest_form (gdt : TV) (P : Timeout) (arg : TArg) (conn : ConnSt) (
             .setConn (readSpec gdt t (elapsed conn cdur sdur)), .sockSet (readSpec gdt t (elapsed conn cdur sdur))],
            .ok, if cl then .closed else .alive, now + elapsed conn cdur sdur⟩) := by
   obtain ⟨hs, hw⟩ := getTimeout_unstarted hg
-  obtain ⟨ct, hct, hcv⟩ := connectTimeout_spec gdt t ht
+  obtain ⟨ct, hct, hcv⟩ := connectTimeout_spec gdt t
   have hst : startConnect t now = .ok { t with start := some now } := by simp [startConnect, hs]
   have hrt := readTimeout_spec gdt { t with start := some now } hw now
-    (now + elapsed conn cdur sdur) rfl ht
+    (now + elapsed conn cdur sdur) rfl
   have he : now + elapsed conn cdur sdur - now = elapsed conn cdur sdur := by omega
   rw [he] at hrt
   have hnow2 : (if conn = ConnSt.alive then now + sdur else now + cdur + sdur)
@@ -254,7 +258,7 @@ theorem elapsed_afterGet (conn : ConnSt) (cdur sdur : Int) :
 /-- `urlopen` in closed form; `pv` is the pool's own `connect_timeout` (only consulted when a new
 connection object is made) -/
 theorem urlopen_form (gdt : TV) (P : Timeout) (arg : TArg) (conn : ConnSt) (now cdur sdur : Int)
-    (cl : Bool) (t : Timeout) (hg : getTimeout P arg = .ok t) (ht : t.total ≠ .unset)
+    (cl : Bool) (t : Timeout) (hg : getTimeout P arg = .ok t)
     (pv : TV) (hp : conn = .noConn → connectTimeout P = .ok pv) :
     ∃ ctRaw, connectTimeout t = .ok ctRaw ∧
     urlopen gdt P arg conn now cdur sdur cl =
@@ -265,10 +269,10 @@ theorem urlopen_form (gdt : TV) (P : Timeout) (arg : TArg) (conn : ConnSt) (now 
          ⟨newConnEvs gdt conn pv ++ [.setConn ctRaw, .setConn (connectSpec gdt t), firstEv conn (connectSpec gdt t),
             .setConn (readSpec gdt t (elapsed conn cdur sdur)), .sockSet (readSpec gdt t (elapsed conn cdur sdur))],
            .ok, if cl then .closed else .alive, now + elapsed conn cdur sdur⟩) := by
-  obtain ⟨ct, hct, _⟩ := connectTimeout_spec gdt t ht
+  obtain ⟨ct, hct, _⟩ := connectTimeout_spec gdt t
   refine ⟨ct, hct, ?_⟩
   have hmr := makeRequest_form gdt P (.tobj t) (connAfterGet conn) now cdur sdur cl t
-    (getTimeout_idem hg P) ht
+    (getTimeout_idem hg P)
   rw [firstEv_afterGet, elapsed_afterGet] at hmr
   have hca : (if conn = ConnSt.noConn then ConnSt.closed else conn) = connAfterGet conn := rfl
   unfold urlopen
